@@ -15,36 +15,65 @@ MOD = "moptipyapps.dynamic_control.ode"
 
 def run(ctx: Ctx) -> None:
     ctx.explanation = (
-        "NARROW. Decided: D10.1 the retry loop of run_ode increments its "
-        "cycle counter exactly once per round before the exit test "
-        "`cycle > 4` and can only repeat through the False outcome of that "
-        "test: at most 5 integration cycles; D10.2 a multi-row result is "
-        "returned only under the finished flag, the first row and every "
-        "later row pass `_is_ok` (a failing check clears the flag and "
-        "leaves), and _is_ok accepts exactly values strictly inside "
-        "(-1e10, 1e10) (NaN fails); D10.3 the control slots of a row are "
-        "written only by controller(<state of that row>, <time of that "
-        "row>, parameters, <control slots of that row>); D10.4 the failure "
-        "row is (start state, 1e100 controls, time 0) of shape (1, dim) and "
-        "the time column is linspace(0, max_time, steps); D10.5 j_from_ode "
-        "allocates exactly as many cells as __j_from_ode_compute stores "
-        "(loop trip counts summed, a polynomial identity) and returns "
-        "fsum(dest) / final time. NOT decided: termination inside scipy's "
-        "RK45, strict monotonicity of float times, agreement with analytic "
-        "solutions, the value and sign of J.")
+        "Decided clauses of the simulation contract, all as shapes of the "
+        "code (statement CFG with labelled test outcomes, dominance and "
+        "avoiding-path queries; symbolic normal forms): D10.1 the retry loop "
+        "increments its cycle counter exactly once per round before the "
+        "exit test and repeats only through its False outcome: at most 5 "
+        "integration cycles; D10.2 a multi-row result is returned only "
+        "behind the True outcomes of the finished flag and of the bound "
+        "tracker's is_ok, the first row is row 0 with the starting state, "
+        "the row loop visits result[1:], the first row and every later row "
+        "are tested as WHOLE rows by _is_ok, from a not-ok outcome the rows "
+        "can never be returned in that cycle, and _is_ok accepts exactly "
+        "values strictly inside (-1e10, 1e10) (NaN fails); D10.3 before a "
+        "row is tested the controller has been called for it on every path, "
+        "as controller(<state of that row>, <time of that row>, parameters, "
+        "<control slots of that row>); D10.4 the failure row and the time "
+        "column linspace(0, max_time, steps); D10.5 j_from_ode allocates "
+        "exactly as many cells as the kernel stores; D10.6 the cells of "
+        "dest are the documented terms of J: v^2 * (t_i - t_{i-1}) * gamma "
+        "for the control columns and v^2 * (t_i - t_{i-1}) for the first "
+        "use_state_dims state columns of the PREVIOUS row (1e100 when |v| "
+        ">= 1e100), states left out for the first pair only, written to "
+        "dest[0], dest[1], ...; J = fsum(dest) / ode[-1, -1]; a single-row "
+        "result scores 1e200; the kernel receives its arguments in order; "
+        "D10.7 a row's state is interpolator(t) only after t_min <= t <= "
+        "t_max held for that interpolator and time, the search starts at "
+        "interpolator 0, advances by one per round, compares the index "
+        "with the list length before using it and leaves when exhausted; "
+        "D10.8 every cycle resets the bound tracker and the interpolator "
+        "list before building the integrator (t0 = 0, y0 = start, t_bound "
+        "= max_time), the finished flag is only ever `status == "
+        "'finished'` or False, each round performs one step and collects "
+        "its interpolator unless the step left the bounds, a finished "
+        "solver is not stepped again, a running one is. NOT decided: "
+        "termination and accuracy inside scipy's RK45, strict monotonicity "
+        "of float times, agreement with analytic solutions, the numeric "
+        "heuristics by which a failed cycle shortens the time frame.")
     for rid, txt in (("D10.1", "at most 5 integration cycles"),
                      ("D10.2", "returned rows pass _is_ok"),
                      ("D10.3", "controls come from the controller"),
                      ("D10.4", "failure row / time column"),
                      ("D10.5", "dest sizing == number of stores")):
         ctx.rule(rid, txt)
+    for rid, txt in ():
+        ctx.rule(rid, txt)
     repo = ctx.repo
     ro = repo.func(MOD, "run_ode")
     _retry(ctx, ro)
     _is_ok_rule(ctx)
     _rows(ctx, ro)
+    ctx.rule("D10.7", "state of a row comes from an interpolator covering "
+             "its time; the search terminates and stays in range")
+    _interpolation(ctx, ro)
+    ctx.rule("D10.8", "integration cycle protocol")
+    _stepping(ctx, ro)
     _failure_row(ctx, ro)
     _dest(ctx)
+    ctx.rule("D10.6", "the cells of dest are the documented terms of J; "
+             "J = sum / simulated time")
+    _j_terms(ctx)
 
 
 # ------------------------------------------------------------------ D10.1
@@ -215,15 +244,27 @@ def _rows(ctx: Ctx, ro: FuncInfo) -> None:
     # over the rows of result) or result[k] itself, never a part of it
     row_names = {row_loop.target.id} if isinstance(
         row_loop.target, ast.Name) else set()
+    row0_defs: list[ast.stmt] = []
+    it_ok = isinstance(row_loop.iter, ast.Subscript) and isinstance(
+        row_loop.iter.slice, ast.Slice) and repo.const(
+        ro.module, row_loop.iter.slice.lower) == 1 and \
+        row_loop.iter.slice.upper is None and row_loop.iter.slice.step is None
+    ctx.ob("D10.2", ro, row_loop, bool(it_ok),
+           "the row loop visits result[1:], i.e. every row after the first"
+           if it_ok else f"the row loop visits `{ast.unparse(row_loop.iter)}`"
+           " - rows are skipped or row 0 is recomputed",
+           construct="row loop range")
     for s_ in ast.walk(outer):
         if isinstance(s_, (ast.Assign, ast.AnnAssign)) and \
                 s_.value is not None and isinstance(
                 s_.value, ast.Subscript) and ast.unparse(
                 s_.value.value) == "result" and not isinstance(
-                s_.value.slice, (ast.Slice, ast.Tuple)):
+                s_.value.slice, (ast.Slice, ast.Tuple)) and repo.const(
+                ro.module, s_.value.slice) == 0:
             tg_ = s_.targets[0] if isinstance(s_, ast.Assign) else s_.target
             if isinstance(tg_, ast.Name):
                 row_names.add(tg_.id)
+                row0_defs.append(s_)
     partial = []
     for t in tests:
         for c in calls_in(t.ast):
@@ -237,7 +278,77 @@ def _rows(ctx: Ctx, ro: FuncInfo) -> None:
                 if not whole:
                     partial.append(ast.unparse(c))
     e_ok = not partial
-    ok = a_ok and b_ok and c_ok and d_ok and e_ok
+    # (f) polarity: from the NOT-ok outcome of any row test the rows can
+    # never be returned within the same integration cycle
+    outer_head = next(n for n in cfg.nodes if n.ast is outer
+                      and n.kind == "join")
+    f_ok = True
+    for t in tests:
+        for m, lb in t.succ:
+            if lb is False and cfg.can_reach_avoiding(
+                    m, R, lambda n: n is outer_head or clears(n),
+                    flag_still_set):
+                f_ok = False
+    # (g) the rows are built only after a finished integration that stayed
+    # inside the bounds: R lies behind the True outcome of the finished flag
+    # AND of the integration state's is_ok
+    def behind_true_edge(pred: Any) -> bool:
+        for c in cfg.nodes:
+            if c.kind == "test" and pred(c):
+                def edge_ok(a: Node, b: Node, lab: object, c: Node = c) \
+                        -> bool:
+                    return not (a is c and lab is True)
+                if R not in cfg.reachable(cfg.entry, lambda n: False,
+                                          edge_ok):
+                    return True
+        return False
+    g1 = behind_true_edge(lambda c: isinstance(c.ast, ast.Name)
+                          and c.ast.id == "is_finished")
+    g2 = behind_true_edge(lambda c: isinstance(c.ast, ast.Attribute)
+                          and c.ast.attr == "is_ok")
+    g_ok = g1 and g2
+    # (h) the first row carries the starting state
+    def sets_start(n: Node) -> bool:
+        a = n.ast
+        if n.kind != "stmt" or not isinstance(a, ast.Assign) or not \
+                isinstance(a.targets[0], ast.Subscript):
+            return False
+        tg = a.targets[0]
+        base = tg.value
+        sl = tg.slice
+        row0 = isinstance(base, ast.Name) and base.id in row_names
+        if isinstance(base, ast.Name) and base.id == "result" and \
+                isinstance(sl, ast.Tuple) and len(sl.elts) == 2 and \
+                repo.const(ro.module, sl.elts[0]) == 0:
+            row0, sl = True, sl.elts[1]
+        return row0 and isinstance(sl, ast.Slice) and (
+            sl.lower is None or repo.const(ro.module, sl.lower) == 0) and \
+            sl.upper is not None and ast.unparse(sl.upper) == nname0 and \
+            sl.step is None and ast.unparse(a.value) == ro.params[0]
+    nname0 = next((
+        (s_.targets[0] if isinstance(s_, ast.Assign) else s_.target).id
+        for s_ in func_body(ro) if isinstance(
+            s_, (ast.Assign, ast.AnnAssign)) and s_.value is not None
+        and ast.unparse(s_.value) == f"len({ro.params[0]})"), "n")
+    first_tests = [t for t in tests if t not in body_tests]
+    h_ok = bool(first_tests) and all(
+        cfg.dominated_by(t, sets_start) for t in first_tests)
+    # ... and the first-row test looks at row 0
+    for t in first_tests:
+        for c in calls_in(t.ast):
+            if isinstance(c.func, ast.Name) and repo.resolve(
+                    ro.module, c.func.id) is okc and c.args:
+                a0 = c.args[0]
+                if isinstance(a0, ast.Name):
+                    if not cfg.dominated_by(t, lambda n: any(
+                            n.ast is d and (d.targets[0] if isinstance(
+                                d, ast.Assign) else d.target).id == a0.id
+                            for d in row0_defs)):
+                        h_ok = False
+                elif not (isinstance(a0, ast.Subscript) and repo.const(
+                        ro.module, a0.slice) == 0):
+                    h_ok = False
+    ok = a_ok and b_ok and c_ok and d_ok and e_ok and f_ok and g_ok and h_ok
     ctx.ob("D10.2", ro, R.ast, ok,
            "the rows are returned only if the finished flag is still set; "
            "row 0 and every later row are checked by _is_ok, and a failing "
@@ -245,7 +356,9 @@ def _rows(ctx: Ctx, ro: FuncInfo) -> None:
            f"a row can be returned unchecked: first-row-check={a_ok}, "
            f"flag-guard={b_ok}, every-row-checked={c_ok}, "
            f"failure-clears-flag={d_ok}, whole-row-checked={e_ok}"
-           + (f" (only a part is tested: {partial})" if partial else ""),
+           + (f" (only a part is tested: {partial})" if partial else "")
+           + f", not-ok-outcome-never-returns={f_ok}, behind-finished-and-"
+           f"in-bounds={g_ok}, first-row-state-is-start={h_ok}",
            construct="rows checked")
     # ---- D10.3 controller calls
     ctrl, params_nm, start_nm = ro.params[2], ro.params[3], ro.params[0]
@@ -262,7 +375,41 @@ def _rows(ctx: Ctx, ro: FuncInfo) -> None:
     tname = tdefs[0].targets[0].id if tdefs else "t"
     calls = [c for c in ast.walk(ro.node) if isinstance(c, ast.Call)
              and isinstance(c.func, ast.Name) and c.func.id == ctrl]
-    ctx.floor("controller_calls", len(calls), 2)
+    ctx.count("controller_calls", len(calls))
+    def is_ctrl_call(n: Node) -> bool:
+        return n.kind == "stmt" and any(
+            isinstance(c.func, ast.Name) and c.func.id == ctrl
+            for c in calls_in(n.ast))
+    # every row test is preceded, in the same row, by the controller call
+    # that fills its control slots
+    def row_start(n: Node) -> bool:
+        return n is head or (n.kind == "stmt" and isinstance(
+            n.ast, (ast.Assign, ast.AnnAssign)) and any(
+            isinstance(x, ast.Name) and x.id in row_names for x in (
+                n.ast.targets if isinstance(n.ast, ast.Assign)
+                else [n.ast.target])))
+    filled = True
+    for t in tests:
+        # walking backwards from the test, a controller call must come
+        # before the start of the row
+        seen: set[int] = set()
+        stack = [p for p, _ in t.pred]
+        while stack:
+            q = stack.pop()
+            if id(q) in seen or is_ctrl_call(q):
+                continue
+            seen.add(id(q))
+            if row_start(q) or q is cfg.entry:
+                filled = False
+                break
+            stack += [p for p, _ in q.pred]
+    ctx.ob("D10.3", ro, outer, filled and len(calls) >= 2,
+           "before a row is tested (and possibly returned) the controller "
+           "has been called for that row on every path" if filled and len(
+               calls) >= 2 else
+           "a row reaches its _is_ok test (and the caller) without its "
+           "control slots having been computed by the controller",
+           construct="controller called for every row")
     for c in calls:
         a = [ast.unparse(x).replace(" ", "") for x in c.args]
         first = a[:2] == [start_nm, "0.0"]
@@ -532,3 +679,745 @@ def _dest(ctx: Ctx) -> None:
            "J = fsum(dest) / (final time); degenerate results are handled "
            "before the kernel is called", construct="J = fsum/T",
            nontrivial=False)
+
+
+# ------------------------------------------------------------------ D10.6
+def _j_terms(ctx: Ctx) -> None:
+    """The cells of `dest` are the documented terms of J."""
+    from sa.casesplit import Splitter
+    from sa.symterm import ite
+    repo = ctx.repo
+    comp = repo.func(MOD, "__j_from_ode_compute")
+    ode_n, sdim_n, udim_n, gam_n, dest_n = comp.params
+    body = func_body(comp)
+    outer = next((s for s in body if isinstance(s, ast.For)), None)
+    ctx.need(outer is not None, "__j_from_ode_compute: loop over the rows")
+    problems: list[str] = []
+    iv = outer.target.id if isinstance(outer.target, ast.Name) else "i"
+    ok_it = ast.unparse(outer.iter).replace(" ", "") in (
+        f"range(1,len({ode_n}))", f"range(1,{ode_n}.shape[0])")
+    if not ok_it:
+        problems.append("rows are not scanned as i = 1 .. len(ode)-1")
+    # last_row / next_row: last_row = ode[0] before, next_row = ode[i]
+    # first in the body, last_row = next_row last in the body
+    def asg(stmts: list[ast.stmt], nm: str) -> list[ast.stmt]:
+        return [s for s in stmts if isinstance(s, (ast.Assign, ast.AnnAssign))
+                and isinstance(s.targets[0] if isinstance(s, ast.Assign)
+                               else s.target, ast.Name) and (
+                    s.targets[0] if isinstance(s, ast.Assign)
+                    else s.target).id == nm and s.value is not None]
+    nxt = [s for s in outer.body if isinstance(s, (ast.Assign, ast.AnnAssign))
+           and s.value is not None and ast.unparse(s.value).replace(
+               " ", "") == f"{ode_n}[{iv}]"]
+    next_n = (nxt[0].targets[0] if isinstance(nxt[0], ast.Assign)
+              else nxt[0].target).id if len(nxt) == 1 and outer.body[
+        0] is nxt[0] else None
+    last_n = None
+    if next_n is not None:
+        tail = outer.body[-1]
+        if isinstance(tail, ast.Assign) and isinstance(
+                tail.value, ast.Name) and tail.value.id == next_n and \
+                isinstance(tail.targets[0], ast.Name):
+            last_n = tail.targets[0].id
+    pre = body[:body.index(outer)]
+    init_ok = last_n is not None and any(
+        ast.unparse(s.value).replace(" ", "") == f"{ode_n}[0]"
+        for s in asg(pre, last_n)) and len(asg(outer.body, last_n)) == 1 \
+        and len(asg(outer.body, next_n)) == 1
+    if not init_ok:
+        problems.append("the previous row is not carried as `last = ode[0]; "
+                        "for i: next = ode[i]; ...; last = next`")
+    if problems:
+        ctx.ob("D10.6", comp, outer, False, "; ".join(problems),
+               construct="row pairing")
+        return
+    ctx.ob("D10.6", comp, outer, True,
+           f"row i is paired with row i-1 (`{last_n}` = ode[i-1], "
+           f"`{next_n}` = ode[i]) for i = 1 .. len(ode)-1",
+           construct="row pairing")
+    # ---- symbolic pieces
+    ev = make_evaluator(repo, comp, extra_call=py_calls)
+    env = Env()
+    C = Poly.var("C")
+    env.vars[ode_n] = ("array", "ode")
+    env.vars[last_n] = ("array", "last")
+    env.vars[next_n] = ("array", "next")
+    env.vars.update({sdim_n: Poly.var("S"), udim_n: Poly.var("U"),
+                     gam_n: Poly.var("gamma"), iv: Poly.var("i")})
+    for s in pre:
+        if isinstance(s, (ast.Assign, ast.AnnAssign)) and s.value is not \
+                None and isinstance(s.targets[0] if isinstance(
+                    s, ast.Assign) else s.target, ast.Name):
+            tg = (s.targets[0] if isinstance(s, ast.Assign)
+                  else s.target).id
+            src = ast.unparse(s.value).replace(" ", "")
+            if src == f"{ode_n}.shape[1]-2":
+                env.vars[tg] = C - Poly.const(2)
+            elif tg != last_n:
+                try:
+                    env = ev.stmt(env, s)
+                except Unsupported:
+                    pass
+    tN = Poly.atom(("cell", "next", (Poly.const(-1),)))
+    tL = Poly.atom(("cell", "last", (Poly.const(-1),)))
+    W = tN - tL
+    big = Poly.const(10) .pow(100) if hasattr(Poly, "pow") else None
+    loops: list[dict[str, Any]] = []
+    flag_n = None
+    cur_env = env.copy()
+    def scan(stmts: list[ast.stmt], guarded: str | None, e: Env) -> Env:
+        nonlocal flag_n
+        for k, s in enumerate(stmts):
+            if s is nxt[0] or s is outer.body[-1]:
+                continue
+            if isinstance(s, ast.While):
+                loops.append(_while_info(
+                    ctx, comp, ev, e, s,
+                    [b for b in stmts[:k] if b is not nxt[0]],
+                    guarded, last_n, dest_n))
+                # havoc the counter afterwards
+                continue
+            if isinstance(s, ast.If) and isinstance(s.test, ast.Name) \
+                    and not s.orelse:
+                flag_n = s.test.id
+                scan(s.body, s.test.id, e.copy())
+                continue
+            if isinstance(s, (ast.Assign, ast.AnnAssign, ast.AugAssign)):
+                try:
+                    e = ev.stmt(e, s)
+                except Unsupported:
+                    pass
+        return e
+    scan(outer.body, None, cur_env)
+    sp = Splitter(integer=False)
+    v = Poly.var("v")
+    results = []
+    for info in loops:
+        if info.get("error"):
+            results.append((False, info["error"]))
+            continue
+        want_w = W * Poly.var("gamma") if info["guard"] is None else W
+        # 1e100 is a float literal: compare through its exact value
+        # float literals are folded through their shortest decimal form
+        hi = Poly.const(10 ** 100)
+        ref = ite(("and", ("lt", -hi, v), ("lt", v, hi)), v * v * want_w, hi)
+        same = True
+        try:
+            for facts, (g, r), _t in sp.cases((info["value"], ref)):
+                if not sp.equal(g, r, facts):
+                    same = False
+        except Unsupported:
+            same = False
+        rng_ok = False
+        if info["guard"] is None:
+            rng_ok = info["hi"] == C - Poly.const(2) and \
+                info["lo"] == Poly.var("S")
+            what = "control columns S .. C-2, weight (t_i - t_{i-1}) * gamma"
+        else:
+            rng_ok = info["hi"] == Poly.var("U") - Poly.const(1) and \
+                info["lo"] == Poly.const(0)
+            what = "state columns 0 .. U-1, weight (t_i - t_{i-1})"
+        ok = same and rng_ok and info["index_ok"]
+        results.append((ok, what if ok else
+                        f"{what}: value matches: {same} "
+                        f"({show(info['value'])[:120]}), columns "
+                        f"{show(info['lo'])}..{show(info['hi'])}, one cell "
+                        f"per term: {info['index_ok']}"))
+    n_ctrl = sum(1 for i_ in loops if i_.get("guard") is None)
+    n_state = sum(1 for i_ in loops if i_.get("guard") is not None)
+    ok = bool(results) and all(r[0] for r in results) and n_ctrl == 1 \
+        and n_state == 1
+    ctx.ob("D10.6", comp, outer, ok,
+           "every cell of dest is v^2 * weight (1e100 when |v| >= 1e100) "
+           "for v = entry of the PREVIOUS row: " + "; ".join(
+               r[1] for r in results) if ok else
+           "the terms of J deviate from the documented sum: " + "; ".join(
+               r[1] for r in results if not r[0])
+           + f" (control loops: {n_ctrl}, state loops: {n_state})",
+           construct="terms of J")
+    # the state terms are skipped for the first pair only
+    flag_ok = False
+    if flag_n is not None:
+        inits = asg(pre, flag_n)
+        sets = asg(outer.body, flag_n)
+        flag_ok = len(inits) == 1 and repo.const(
+            comp.module, inits[0].value) is False and len(sets) == 1 and \
+            repo.const(comp.module, sets[0].value) is True and \
+            outer.body.index(sets[0]) > max(
+                (outer.body.index(s) for s in outer.body
+                 if isinstance(s, ast.If) and isinstance(s.test, ast.Name)
+                 and s.test.id == flag_n), default=-1)
+    ctx.ob("D10.6", comp, outer, flag_ok,
+           "the state terms are left out exactly for the first pair of rows "
+           "(the common starting state)" if flag_ok else
+           "the rule 'starting state is not counted, all later states are' "
+           "is not implemented by the flag protocol",
+           construct="starting state skipped")
+    del big
+    # ---- the cell index starts at 0 and is only ever advanced by the loops
+    idx_names = {ast.unparse(s.targets[0].slice) for s in ast.walk(comp.node)
+                 if isinstance(s, ast.Assign) and isinstance(
+                     s.targets[0], ast.Subscript) and ast.unparse(
+                     s.targets[0].value) == dest_n}
+    ok_idx = len(idx_names) == 1
+    if ok_idx:
+        ix = next(iter(idx_names))
+        defs = asg(pre, ix)
+        other = [s for s in ast.walk(outer) if isinstance(
+            s, (ast.Assign, ast.AnnAssign)) and isinstance(
+            s.targets[0] if isinstance(s, ast.Assign) else s.target,
+            ast.Name) and (s.targets[0] if isinstance(s, ast.Assign)
+                           else s.target).id == ix]
+        ok_idx = len(defs) == 1 and repo.const(
+            comp.module, defs[0].value) == 0 and not other
+    ctx.ob("D10.6", comp, comp.node, ok_idx,
+           "the terms are written to dest[0], dest[1], ... without gaps"
+           if ok_idx else "the cell index does not start at 0 / is reset: "
+           "cells stay unfilled or are written beyond the buffer",
+           construct="cell index starts at zero")
+    # ---- j_from_ode: guard, defaults, call binding, division by the time
+    jf0 = repo.func(MOD, "j_from_ode")
+    g_ok = False
+    for s in func_body(jf0):
+        if isinstance(s, ast.If) and s.body and isinstance(
+                s.body[0], ast.Return) and repo.const(
+                jf0.module, s.body[0].value) == 1e200:
+            t = s.test
+            if isinstance(t, ast.Compare) and len(t.ops) == 1 and \
+                    ast.unparse(t.left).replace(" ", "") in (
+                    f"len({jf0.params[0]})", f"{jf0.params[0]}.shape[0]"):
+                k = repo.const(jf0.module, t.comparators[0])
+                g_ok = (isinstance(t.ops[0], ast.LtE) and k == 1) or (
+                    isinstance(t.ops[0], ast.Lt) and k == 2)
+    ctx.ob("D10.6", jf0, jf0.node, g_ok,
+           "a simulation with a single (failure) row scores 1e200, every "
+           "longer one is evaluated" if g_ok else
+           "the failure value 1e200 is not returned exactly for results "
+           "with at most one row", construct="failure row scores 1e200")
+    jf = repo.func(MOD, "j_from_ode")
+    calls = [n for n in ast.walk(jf.node) if isinstance(n, ast.Call)
+             and isinstance(n.func, ast.Name) and repo.resolve(
+                 jf.module, n.func.id) is comp]
+    p = jf.params
+    dest_var = None
+    for s in func_body(jf):
+        if isinstance(s, (ast.Assign, ast.AnnAssign)) and isinstance(
+                s.value, ast.Call) and ast.unparse(s.value.func) in (
+                "np.empty", "np.zeros"):
+            tg = s.targets[0] if isinstance(s, ast.Assign) else s.target
+            dest_var = tg.id if isinstance(tg, ast.Name) else None
+    okb = len(calls) == 1 and not calls[0].keywords and [
+        ast.unparse(a) for a in calls[0].args] == [
+        p[0], p[1], p[2], p[3], dest_var]
+    ctx.ob("D10.6", jf, calls[0] if calls else jf.node, okb,
+           "j_from_ode passes (ode, state_dim, use_state_dims, gamma, dest) "
+           "to the kernel in this order" if okb else
+           "the kernel is called with "
+           + (", ".join(ast.unparse(a) for a in calls[0].args)
+              if calls else "nothing") + " - expected (ode, state_dim, "
+           "use_state_dims, gamma, dest)", construct="kernel arguments")
+    rets = sorted((r for r in ast.walk(jf.node)
+                   if isinstance(r, ast.Return)), key=lambda r: r.lineno)
+    last = rets[-1] if rets else None
+    okr = last is not None and isinstance(
+        last.value, ast.BinOp) and isinstance(
+        last.value.op, ast.Div) and ast.unparse(last.value.left) in (
+        f"fsum({dest_var})", f"math.fsum({dest_var})",
+        f"{dest_var}.sum()", f"np.sum({dest_var})") and ast.unparse(
+        last.value.right).replace(" ", "") == f"{p[0]}[-1,-1]"
+    ctx.ob("D10.6", jf, last or jf.node, bool(okr),
+           "J = sum(dest) / ode[-1, -1] (the simulated time)" if okr else
+           "J is not the sum of the terms divided by the simulated time",
+           construct="J = sum / time")
+    cfg = CFG(jf.node)
+    call_node = next((n for n in cfg.nodes if n.kind == "stmt" and calls
+                      and any(c is calls[0] for c in calls_in(n.ast))), None)
+    ret_node = next((n for n in cfg.nodes if n.ast is last), None)
+    okd = call_node is not None and ret_node is not None and \
+        cfg.dominated_by(ret_node, lambda n: n is call_node)
+    ctx.ob("D10.6", jf, last or jf.node, okd,
+           "the terms are computed on every path that returns the sum"
+           if okd else "a path returns the sum of an unfilled buffer",
+           construct="kernel called before the sum")
+
+
+def _while_info(ctx: Ctx, comp: FuncInfo, ev: Evaluator, env: Env,
+                w: ast.While, before: list[ast.stmt], guard: str | None,
+                last_n: str, dest_n: str) -> dict[str, Any]:
+    """One term loop: visited columns, stored value, index discipline."""
+    repo = ctx.repo
+    t = w.test
+    if not (isinstance(t, ast.Compare) and isinstance(t.left, ast.Name)
+            and len(t.ops) == 1 and isinstance(t.ops[0], (ast.GtE, ast.Gt))):
+        return {"error": f"loop test `{ast.unparse(t)}` not recognised"}
+    c = t.left.id
+    init = None
+    e = env.copy()
+    for s in before:
+        if isinstance(s, (ast.Assign, ast.AnnAssign, ast.AugAssign)):
+            try:
+                e = ev.stmt(e, s)
+            except Unsupported:
+                pass
+    init = e.vars.get(c)
+    if not isinstance(init, Poly):
+        return {"error": f"start value of `{c}` not known"}
+    try:
+        bound = ev.num(e, t.comparators[0])
+    except Unsupported:
+        return {"error": "loop bound not normalised"}
+    decs = [k for k, s in enumerate(w.body) if isinstance(s, ast.AugAssign)
+            and isinstance(s.target, ast.Name) and s.target.id == c]
+    if len(decs) != 1 or not isinstance(w.body[decs[0]].op, ast.Sub) or \
+            repo.const(comp.module, w.body[decs[0]].value) != 1:
+        return {"error": f"`{c}` is not decremented by one per round"}
+    loads = [k for k, s in enumerate(w.body) if isinstance(
+        s, (ast.Assign, ast.AnnAssign)) and s.value is not None and
+        ast.unparse(s.value).replace(" ", "") == f"{last_n}[{c}]"]
+    if len(loads) != 1:
+        return {"error": f"no single load `{last_n}[{c}]` per round"}
+    vname = (w.body[loads[0]].targets[0] if isinstance(
+        w.body[loads[0]], ast.Assign) else w.body[loads[0]].target).id
+    one = Poly.const(1)
+    strict = isinstance(t.ops[0], ast.Gt)
+    # values of c at the test: init, init-1, ..., down to the bound
+    low_test = bound + one if strict else bound
+    if loads[0] < decs[0]:
+        hi, lo = init, low_test          # load, then decrement
+    else:
+        hi, lo = init - one, low_test - one
+    stores = [s for s in w.body if isinstance(s, ast.Assign) and isinstance(
+        s.targets[0], ast.Subscript) and ast.unparse(
+        s.targets[0].value) == dest_n]
+    incs = [s for s in w.body if isinstance(s, ast.AugAssign) and isinstance(
+        s.target, ast.Name) and isinstance(s.op, ast.Add) and repo.const(
+        comp.module, s.value) == 1 and s.target.id != c]
+    index_ok = len(stores) == 1 and len(incs) == 1 and ast.unparse(
+        stores[0].targets[0].slice) == incs[0].target.id and \
+        w.body.index(stores[0]) < w.body.index(incs[0]) and not any(
+        isinstance(x, (ast.If, ast.While, ast.For, ast.Break, ast.Continue))
+        for x in w.body)
+    if len(stores) != 1:
+        return {"error": "not exactly one store into dest per round"}
+    e2 = env.copy()
+    e2.vars[vname] = Poly.var("v")
+    for s in before:
+        if isinstance(s, (ast.Assign, ast.AnnAssign, ast.AugAssign)):
+            try:
+                e2 = ev.stmt(e2, s)
+            except Unsupported:
+                pass
+    e2.vars[vname] = Poly.var("v")
+    try:
+        val = ev.num(e2, stores[0].value)
+    except Unsupported as u:
+        return {"error": f"stored value not normalised: {u}"}
+    return {"hi": hi, "lo": lo, "value": val, "index_ok": index_ok,
+            "guard": guard}
+
+
+# ------------------------------------------------------------------ D10.7
+def _interpolation(ctx: Ctx, ro: FuncInfo) -> None:
+    """Each later row takes its state from an interpolator covering its time;
+    the search for it advances and stays inside the list."""
+    repo = ctx.repo
+    cfg = CFG(ro.node)
+    outer = next(s for s in func_body(ro) if isinstance(s, ast.While))
+    row_loop = None
+    for n in ast.walk(outer):
+        if isinstance(n, ast.For) and isinstance(
+                n.iter, ast.Subscript) and ast.unparse(
+                n.iter.value) == "result":
+            row_loop = n
+    ctx.need(row_loop is not None, "run_ode: loop over the result rows")
+    # the store  row[0:n] = D(t)
+    store = None
+    for s in ast.walk(row_loop):
+        if isinstance(s, ast.Assign) and isinstance(
+                s.value, ast.Call) and isinstance(
+                s.value.func, ast.Name) and len(s.value.args) == 1 and \
+                isinstance(s.value.args[0], ast.Name) and isinstance(
+                s.targets[0], ast.Subscript):
+            store = s
+    if store is None:
+        ctx.ob("D10.7", ro, row_loop, False,
+               "no row ever receives an interpolated state (`row[0:n] = "
+               "interpolator(t)` not found)",
+               construct="state from a covering interpolator")
+        return
+    dn, tn = store.value.func.id, store.value.args[0].id
+    S = next(n for n in cfg.nodes if n.ast is store)
+    head = next(n for n in cfg.nodes if n.ast is row_loop and n.kind == "for")
+    problems: list[str] = []
+    chains = [n for n in cfg.nodes if n.kind == "test" and isinstance(
+        n.ast, ast.Compare) and len(n.ast.ops) == 2 and any(
+        n.ast is x for x in ast.walk(row_loop))]
+    good = None
+    for c in chains:
+        a = c.ast
+        if isinstance(a.left, ast.Attribute) and ast.unparse(
+                a.left.value) == dn and a.left.attr == "t_min" and \
+                ast.unparse(a.comparators[0]) == tn and isinstance(
+                a.comparators[1], ast.Attribute) and ast.unparse(
+                a.comparators[1].value) == dn and \
+                a.comparators[1].attr == "t_max" and all(
+                isinstance(o, ast.LtE) for o in a.ops):
+            good = c
+    if good is None:
+        problems.append(f"no test `{dn}.t_min <= {tn} <= {dn}.t_max` guards "
+                        f"`{ast.unparse(store)}`")
+    else:
+        def edge_ok(a: Node, b: Node, lab: object) -> bool:
+            return not (a is good and lab is True)
+        starts = [m for m, lb in head.succ if lb == "iter"]
+
+        def clears(n: Node) -> bool:
+            a = n.ast
+            return n.kind == "stmt" and isinstance(a, ast.Assign) and any(
+                isinstance(x, ast.Name) and x.id == "is_finished"
+                for x in a.targets) and repo.const(
+                ro.module, a.value) is False
+        # paths on which the finished flag was cleared do not reach the
+        # store: it sits behind a test of that flag
+        flag_tests = [n for n in cfg.nodes if n.kind == "test" and isinstance(
+            n.ast, ast.Name) and n.ast.id == "is_finished" and any(
+            n.ast is x for x in ast.walk(row_loop))]
+        behind_flag = False
+        for f in flag_tests:
+            def eok2(a: Node, b: Node, lab: object, f: Node = f) -> bool:
+                return not (a is f and lab is True)
+            if S not in cfg.reachable(starts, lambda n: n is head, eok2) \
+                    and not any(S is st for st in starts):
+                behind_flag = True
+        if not behind_flag:
+            problems.append("the interpolation is not guarded by the "
+                            "finished flag, which the failed search clears")
+        reach = cfg.reachable(starts, lambda n: n is head or clears(n),
+                              edge_ok)
+        if S in reach or any(S is st for st in starts):
+            problems.append("the state can be interpolated without the "
+                            "time having been found inside the "
+                            "interpolator's range")
+        # no re-assignment of the interpolator / the time between the
+        # successful range test and the store
+        def assigns(n: Node) -> bool:
+            a = n.ast
+            return n.kind == "stmt" and isinstance(
+                a, (ast.Assign, ast.AnnAssign, ast.AugAssign)) and any(
+                isinstance(x, ast.Name) and x.id in (dn, tn) for x in (
+                    a.targets if isinstance(a, ast.Assign) else [a.target]))
+        tsucc = [m for m, lb in good.succ if lb is True]
+        for a in [n for n in cfg.nodes if assigns(n)]:
+            for m in tsucc:
+                if (m is a or cfg.can_reach_avoiding(
+                        m, a, lambda n: n is good or n is head)) and \
+                        cfg.can_reach_avoiding(
+                            a, S, lambda n: n is good or n is head):
+                    problems.append(
+                        f"`{ast.unparse(a.ast)[:40]}` changes the "
+                        "interpolator/time after the range test")
+    # ---- the search loop: index advances by one per round, is compared
+    # with the number of interpolators before it is used
+    wl = next((n for n in ast.walk(row_loop) if isinstance(n, ast.While)),
+              None)
+    idx = None
+    if wl is None:
+        problems.append("no search loop over the interpolators")
+    else:
+        picks = [s for s in ast.walk(wl) if isinstance(s, ast.Assign)
+                 and isinstance(s.targets[0], ast.Name)
+                 and s.targets[0].id == dn and isinstance(
+                     s.value, ast.Subscript) and isinstance(
+                     s.value.slice, ast.Name)]
+        if len(picks) != 1:
+            problems.append("the next interpolator is not picked as "
+                            f"`{dn} = <list>[index]`")
+        else:
+            idx = picks[0].value.slice.id
+            lst = ast.unparse(picks[0].value.value)
+            incs = [s for s in wl.body if isinstance(s, ast.AugAssign)
+                    and isinstance(s.target, ast.Name)
+                    and s.target.id == idx]
+            if len(incs) != 1 or not isinstance(
+                    incs[0].op, ast.Add) or repo.const(
+                    ro.module, incs[0].value) != 1 or any(
+                    isinstance(s, (ast.Assign, ast.AugAssign)) and s is not
+                    incs[0] and any(isinstance(x, ast.Name) and x.id == idx
+                                    for x in ast.walk(s) if isinstance(
+                                        getattr(x, "ctx", None), ast.Store))
+                    for s in ast.walk(wl)):
+                problems.append(f"the interpolator index `{idx}` does not "
+                                "advance by exactly one per round: the "
+                                "search may not terminate")
+            # the bound: <len name> = len(list); test idx >= len
+            ln = None
+            for s in ast.walk(outer):
+                if isinstance(s, (ast.Assign, ast.AnnAssign)) and \
+                        s.value is not None and ast.unparse(
+                        s.value).replace(" ", "") == f"len({lst})":
+                    tg = s.targets[0] if isinstance(s, ast.Assign) \
+                        else s.target
+                    ln = tg.id if isinstance(tg, ast.Name) else None
+            P = next(n for n in cfg.nodes if n.ast is picks[0])
+            guards = [n for n in cfg.nodes if n.kind == "test" and isinstance(
+                n.ast, ast.Compare) and len(n.ast.ops) == 1 and any(
+                n.ast is x for x in ast.walk(wl))]
+            bound_ok = False
+            for g in guards:
+                a = g.ast
+                l_, r_ = ast.unparse(a.left), ast.unparse(a.comparators[0])
+                lens = (ln, f"len({lst})")
+                # which outcome of the test implies idx < len?
+                safe_label = None
+                if l_ == idx and r_ in lens:
+                    safe_label = {ast.GtE: False, ast.Lt: True}.get(
+                        type(a.ops[0]))
+                if r_ == idx and l_ in lens:
+                    safe_label = {ast.LtE: False, ast.Gt: True}.get(
+                        type(a.ops[0]))
+                if safe_label is None:
+                    continue
+                def eok(x: Node, y: Node, lab: object, g: Node = g,
+                        sl: bool = safe_label) -> bool:
+                    return not (x is g and lab is sl)
+                inc_nodes = [n for n in cfg.nodes if incs and n.ast is
+                             incs[0]]
+                src = [m for n in inc_nodes for m, _ in n.succ]
+                if src and P not in cfg.reachable(src, None, eok) and \
+                        not any(P is m for m in src):
+                    bound_ok = True
+            for g in guards:
+                a = g.ast
+                l_, r_ = ast.unparse(a.left), ast.unparse(a.comparators[0])
+                lens = (ln, f"len({lst})")
+                unsafe = None
+                if l_ == idx and r_ in lens:
+                    unsafe = {ast.GtE: True, ast.Lt: False}.get(
+                        type(a.ops[0]))
+                if r_ == idx and l_ in lens:
+                    unsafe = {ast.LtE: True, ast.Gt: False}.get(
+                        type(a.ops[0]))
+                if unsafe is None:
+                    continue
+                whead = next(n for n in cfg.nodes if n.ast is wl
+                             and n.kind == "join")
+                for m, lb in g.succ:
+                    if lb is unsafe and (m is whead or cfg.can_reach_avoiding(
+                            m, whead, lambda n: n is head)):
+                        problems.append(
+                            "when the interpolators are exhausted the "
+                            "search loop is not left: it cannot terminate")
+            if not bound_ok:
+                problems.append(
+                    f"`{lst}[{idx}]` is read without `{idx}` having been "
+                    "compared with the number of interpolators")
+    # ---- the search starts at the first interpolator
+    if idx is not None:
+        pre = [s for s in ast.walk(outer) if isinstance(
+            s, (ast.Assign, ast.AnnAssign)) and s.value is not None
+            and not any(s is x for x in ast.walk(row_loop))]
+        i0 = [s for s in pre if isinstance(
+            s.targets[0] if isinstance(s, ast.Assign) else s.target,
+            ast.Name) and (s.targets[0] if isinstance(s, ast.Assign)
+                           else s.target).id == idx]
+        d0 = [s for s in pre if isinstance(
+            s.targets[0] if isinstance(s, ast.Assign) else s.target,
+            ast.Name) and (s.targets[0] if isinstance(s, ast.Assign)
+                           else s.target).id == dn]
+        ok0 = len(i0) == 1 and repo.const(ro.module, i0[0].value) == 0 \
+            and len(d0) == 1 and isinstance(
+            d0[0].value, ast.Subscript) and ast.unparse(
+            d0[0].value.slice) in (idx, "0")
+        if not ok0:
+            problems.append("the search does not start at the first "
+                            "interpolator (index 0)")
+    ctx.ob("D10.7", ro, store, not problems,
+           f"`{ast.unparse(store)}` happens only after `{dn}.t_min <= {tn} "
+           f"<= {dn}.t_max` held for that very interpolator and time; the "
+           "search starts at interpolator 0, advances by one per round and "
+           "compares the index with the list length before using it"
+           if not problems else "; ".join(problems),
+           construct="state from a covering interpolator")
+
+
+# ------------------------------------------------------------------ D10.8
+def _stepping(ctx: Ctx, ro: FuncInfo) -> None:
+    """Every integration cycle starts from a clean state; the finished flag
+    means what it says; every accepted step contributes its interpolator."""
+    repo = ctx.repo
+    cfg = CFG(ro.node)
+    outer = next(s for s in func_body(ro) if isinstance(s, ast.While))
+    head = next(n for n in cfg.nodes if n.ast is outer and n.kind == "join")
+    problems: list[str] = []
+    # the integrator construction of this cycle
+    mk = [n for n in cfg.nodes if n.kind == "stmt" and isinstance(
+        n.ast, (ast.Assign, ast.AnnAssign)) and isinstance(
+        n.ast.value, ast.Call) and ast.unparse(n.ast.value.func) in (
+        "RK45",) and any(n.ast is x for x in ast.walk(outer))]
+    if len(mk) != 1:
+        problems.append("integrator construction not found")
+    else:
+        def is_call(n: Node, attr: str) -> bool:
+            return n.kind == "stmt" and isinstance(
+                n.ast, ast.Expr) and isinstance(
+                n.ast.value, ast.Call) and isinstance(
+                n.ast.value.func, ast.Attribute) and \
+                n.ast.value.func.attr == attr
+        for attr, what in (("init", "the bound tracker is not reset"),
+                           ("clear", "interpolators of an earlier cycle "
+                                     "are kept")):
+            if cfg.can_reach_avoiding(head, mk[0],
+                                      lambda n, a=attr: is_call(n, a)):
+                problems.append(f"a cycle can start without .{attr}(): "
+                                + what)
+        kws = {k.arg: ast.unparse(k.value) for k in mk[0].ast.value.keywords}
+        want = {"t0": "0.0", "y0": ro.params[0], "t_bound": "max_time"}
+        for k, v in want.items():
+            if kws.get(k) != v:
+                problems.append(f"the integrator is created with {k}="
+                                f"{kws.get(k)}, expected {v}")
+    for lp_ in [outer] + [n for n in outer.body if isinstance(n, ast.While)]:
+        if repo.const(ro.module, lp_.test) is not True:
+            problems.append(f"`while {ast.unparse(lp_.test)}`: the retry / "
+                            "stepping loops are expected to run until they "
+                            "are left explicitly")
+    # the bound tracker is built from this call's own arguments
+    mk_state = [n for n in ast.walk(ro.node) if isinstance(n, ast.Call)
+                and isinstance(n.func, ast.Name)
+                and "IntegrationState" in n.func.id]
+    if len(mk_state) == 1:
+        r_ = repo.resolve(ro.module, mk_state[0].func.id)
+        init_ = getattr(r_, "methods", {}).get("__init__") if r_ else None
+        if init_ is not None:
+            want_ = init_.params[1:]
+            got_ = [ast.unparse(a) for a in mk_state[0].args]
+            if mk_state[0].keywords or got_ != want_ or any(
+                    w not in ro.params for w in want_):
+                problems.append(
+                    f"the bound tracker is created with ({', '.join(got_)}) "
+                    f"for parameters ({', '.join(want_)})")
+    # the finished flag
+    flag = "is_finished"
+    asg = [n for n in ast.walk(outer) if isinstance(
+        n, (ast.Assign, ast.AnnAssign)) and n.value is not None and
+        isinstance(n.targets[0] if isinstance(n, ast.Assign) else n.target,
+                   ast.Name) and (n.targets[0] if isinstance(n, ast.Assign)
+                                  else n.target).id == flag]
+    for a in asg:
+        v = a.value
+        okv = repo.const(ro.module, v) is False or (
+            isinstance(v, ast.Compare) and len(v.ops) == 1 and isinstance(
+                v.ops[0], ast.Eq) and isinstance(
+                v.left, ast.Attribute) and v.left.attr == "status" and
+            repo.const(ro.module, v.comparators[0]) == "finished")
+        if not okv:
+            problems.append(f"`{ast.unparse(a)}`: the finished flag may be "
+                            "set although the integration did not finish")
+    # the step loop
+    step_loop = next((n for n in outer.body if isinstance(n, ast.While)),
+                     None)
+    if step_loop is None:
+        problems.append("no stepping loop")
+    else:
+        shead = next(n for n in cfg.nodes if n.ast is step_loop
+                     and n.kind == "join")
+        steps = [n for n in cfg.nodes if n.kind == "stmt" and isinstance(
+            n.ast, ast.Expr) and isinstance(n.ast.value, ast.Call) and
+            isinstance(n.ast.value.func, ast.Attribute)
+            and n.ast.value.func.attr == "step"
+            and any(n.ast is x for x in ast.walk(step_loop))]
+        apps = [n for n in cfg.nodes if n.kind == "stmt" and any(
+            isinstance(c.func, ast.Attribute) and c.func.attr == "append"
+            and c.args and isinstance(c.args[0], ast.Call) and isinstance(
+                c.args[0].func, ast.Attribute)
+            and c.args[0].func.attr == "dense_output"
+            for c in calls_in(n.ast))
+            and any(n.ast is x for x in ast.walk(step_loop))]
+        if len(steps) != 1 or len(apps) != 1:
+            problems.append("stepping loop without exactly one step() and "
+                            "one append(dense_output())")
+        else:
+            # a new round starts only after the interpolator of this step
+            # was collected
+            if any(cfg.can_reach_avoiding(
+                    m, shead, lambda n: n is apps[0] or n is head)
+                   for m, _ in steps[0].succ):
+                problems.append("a step can be followed by the next step "
+                                "without its interpolator being collected")
+            # after a step that left the bounds no interpolator is taken
+            oks = [n for n in cfg.nodes if n.kind == "test" and isinstance(
+                n.ast, ast.Attribute) and n.ast.attr == "is_ok" and any(
+                n.ast is x for x in ast.walk(step_loop))]
+            if not oks:
+                problems.append("the stepping loop never looks at the "
+                                "bound tracker")
+            for o in oks:
+                for m, lb in o.succ:
+                    if lb is False and (m is apps[0] or
+                                        cfg.can_reach_avoiding(
+                            m, apps[0], lambda n: n is shead)):
+                        problems.append("an out-of-bounds step still "
+                                        "contributes an interpolator")
+            # after the interpolator was collected: finished -> leave the
+            # loop (a finished solver must not be stepped), otherwise -> on
+            fts = [n for n in cfg.nodes if n.kind == "test" and isinstance(
+                n.ast, ast.Name) and n.ast.id == flag and any(
+                n.ast is x for x in ast.walk(step_loop))]
+            post = [f for f in fts if f in cfg.reachable(
+                apps[0], lambda n: n is shead or n is head)]
+            pre_t = [f for f in fts if f not in post]
+            if not post:
+                problems.append("after collecting the interpolator the "
+                                "finished flag is not consulted")
+            for f in post:
+                for m, lb in f.succ:
+                    back = m is shead or cfg.can_reach_avoiding(
+                        m, shead, lambda n: n is head)
+                    if lb is True and back:
+                        problems.append("a finished integration is stepped "
+                                        "again")
+                    if lb is False and not back:
+                        problems.append("a running integration is not "
+                                        "continued")
+            for f in pre_t:
+                for m, lb in f.succ:
+                    if lb is True and not (m is apps[0] or (
+                            m.kind != "test" and cfg.can_reach_avoiding(
+                                m, apps[0], lambda n: n.kind == "test"
+                                or n is shead or n is head))):
+                        problems.append("a finished step does not "
+                                        "contribute its interpolator")
+            run_asg = [n for n in ast.walk(step_loop) if isinstance(
+                n, (ast.Assign, ast.AnnAssign)) and n.value is not None
+                and isinstance(n.value, ast.Compare) and isinstance(
+                    n.value.left, ast.Attribute)
+                and n.value.left.attr == "status" and repo.const(
+                    ro.module, n.value.comparators[0]) == "running"]
+            if len(run_asg) != 1 or not isinstance(
+                    run_asg[0].value.ops[0], ast.Eq):
+                problems.append("no flag `status == 'running'`")
+            else:
+                rn = (run_asg[0].targets[0] if isinstance(
+                    run_asg[0], ast.Assign) else run_asg[0].target).id
+                rts = [n for n in cfg.nodes if n.kind == "test" and
+                       isinstance(n.ast, ast.Name) and n.ast.id == rn]
+                if not any(any(lb is True and (m is apps[0] or (
+                               m.kind != "test" and cfg.can_reach_avoiding(
+                                   m, apps[0], lambda n: n.kind == "test"
+                                   or n is shead or n is head)))
+                               for m, lb in r.succ) for r in rts):
+                    problems.append("a running step does not contribute "
+                                    "its interpolator")
+            # step() is the first thing of every round
+            if cfg.can_reach_avoiding(shead, apps[0],
+                                      lambda n: n is steps[0]):
+                problems.append("an interpolator is collected without a "
+                                "step")
+    ctx.ob("D10.8", ro, outer, not problems,
+           "every cycle resets the bound tracker and the interpolator list "
+           "before creating the integrator (from time 0, the starting state, "
+           "up to max_time); the finished flag is only ever `status == "
+           "'finished'` or False; each round of the stepping loop performs "
+           "one step and collects its interpolator unless the step left the "
+           "bounds" if not problems else "; ".join(problems),
+           construct="integration cycle protocol")
